@@ -130,7 +130,12 @@ pub fn solve_milp_lp_problem_with(
     let mut problem = Problem::new(opt_type);
     for (i, var) in variables.iter().enumerate() {
         let var_domain = domain.get(var).unwrap();
-        let coeff = objective[i];
+        // a satisfiability model has no objective: any feasible point is an
+        // answer, so its coefficients must not steer (or unbound) the search
+        let coeff = match lp.optimization_type() {
+            OptimizationType::Satisfy => 0.0,
+            OptimizationType::Min | OptimizationType::Max => objective[i],
+        };
         let added_var = match var_domain.get_type() {
             VariableType::Real(min, max) => problem.add_var(coeff, (*min, *max)),
             VariableType::Boolean => problem.add_binary_var(coeff),
